@@ -11,8 +11,11 @@ const cvlib = require('./cv.js');
 const cv = cvlib.cv;
 const nsValue = cvlib.nsValue;
 
-const plan = JSON.parse(fs.readFileSync(process.argv[2], 'utf8'));
-const events = [];
+// With "--serve" the runner stays alive and executes one plan per stdin line (each plan uses files in
+// its own fresh directory, so module instances are never shared between plans).
+const serve = process.argv[2] === '--serve';
+let plan = serve ? null : JSON.parse(fs.readFileSync(process.argv[2], 'utf8'));
+let events = [];
 let overflow = false;
 const MAX = 5000;
 globalThis.log = function () {
@@ -44,7 +47,7 @@ async function settle() {
   }
 }
 
-async function main() {
+async function runPlan() {
   const steps = [];
   for (const st of plan.steps) {
     const res = { end: 'normal' };
@@ -71,7 +74,25 @@ async function main() {
     steps.push(res);
   }
   await settle();
-  process.stdout.write(JSON.stringify({ events: events, steps: steps, overflow: overflow }) + '\n');
-  process.exit(0);
+  return JSON.stringify({ events: events, steps: steps, overflow: overflow });
+}
+
+async function main() {
+  if (!serve) {
+    process.stdout.write(await runPlan() + '\n');
+    process.exit(0);
+  }
+  const rl = require('readline').createInterface({ input: process.stdin });
+  let queue = Promise.resolve();
+  rl.on('line', function (line) {
+    if (!line) return;
+    queue = queue.then(async function () {
+      events = [];
+      overflow = false;
+      try { plan = JSON.parse(line); } catch (e) { process.stdout.write('{"harnessError":"bad plan"}\n'); return; }
+      process.stdout.write(await runPlan() + '\n');
+    });
+  });
+  rl.on('close', function () { queue.then(function () { process.exit(0); }); });
 }
 main();
